@@ -207,3 +207,22 @@ package chained_bft
 //@ func DefaultPaceMaker.AdvanceView
 //@   property C15
 //@   ensures max_monotone: p.CurrentView == max(old(p.CurrentView), qc.GetProposalView() + 1) && result0 && result1 == nil
+
+// ---- C14: which proposals go on unchecked ----
+// justifyChecked[q]: certificate object q went through CheckProposal and was accepted
+// (ghost history; certificates allocated later start unchecked).
+//@ ghost var justifyChecked (Array Int Bool)
+//@ iface saftyRulesInterface.CheckProposal
+//@   trusted
+//@   sets justifyChecked = upd(old(justifyChecked), ifacePtr($1), result == nil)
+// A received proposal moves the pacemaker, the commit point, the pending tree and this
+// node's vote only if the certificate that justifies it passed CheckProposal - or IS the
+// genesis certificate, the one certificate nobody signed (the committed root, which moves
+// on with every commit, is not such an exception). Asserted where the first effect happens
+// (the pacemaker); everything else the handler does comes after it.
+//@ func Smr.handleReceivedProposal
+//@   property C14
+//@   trustcallees
+//@   requires later_certificates_start_unchecked: forall q int :: q > allocTop() ==> !sel(justifyChecked, q)
+//@   at PacemakerInterface.AdvanceView assert justify_checked_unless_genesis: sel(justifyChecked, parentQC) || bytesEq(s.qcTree.Genesis.In.GetProposalId(), parentQC.VoteInfo.ProposalId)
+//@   at saftyRulesInterface.CheckProposal assert the_justify_is_what_is_checked: ifacePtr($1) == parentQC && ifacePtr($0) != 0
